@@ -54,6 +54,7 @@ const (
 	c20Vrf
 	c20Watch
 	c20Mrt // EnableMrt / DisableMrt of one of two dump files (updates or table dump); what is enabled at the end stays enabled at Stop
+	c20Misc // the rest of the management API: shutdown / hard reset, table and global getters, fine-grained policy objects, peer groups and dynamic neighbours, RPKI listings, log level
 	c20MgmtOps
 )
 
@@ -226,6 +227,9 @@ func (r *c20Run) mgmtActor(m int, wg *sync.WaitGroup) {
 		r.called()
 		if err != nil {
 			r.logf("mgmt %d: %s: %v", m, what, err)
+			if os.Getenv("VERIF_C20_TRACE") != "" {
+				fmt.Fprintf(os.Stderr, "mgmt %d: %s: %v\n", m, what, err)
+			}
 		}
 	}
 	var watchCancel context.CancelFunc
@@ -311,6 +315,57 @@ func (r *c20Run) mgmtActor(m int, wg *sync.WaitGroup) {
 				note("EnableMrt", s.EnableMrt(ctx, &api.EnableMrtRequest{DumpType: api.EnableMrtRequest_DUMP_TYPE_TABLE, Filename: file, DumpInterval: 60}))
 			} else {
 				note("EnableMrt", s.EnableMrt(ctx, &api.EnableMrtRequest{DumpType: api.EnableMrtRequest_DUMP_TYPE_UPDATES, Filename: file}))
+			}
+		case c20Misc:
+			switch op.B {
+			case 0:
+				note("ShutdownPeer", s.ShutdownPeer(ctx, &api.ShutdownPeerRequest{Address: target.Addr, Communication: "bye"}))
+			case 1:
+				note("ResetPeer(hard)", s.ResetPeer(ctx, &api.ResetPeerRequest{Address: target.Addr, Communication: "reset"}))
+			case 2:
+				_, err := s.GetTable(ctx, &api.GetTableRequest{TableType: api.TableType_TABLE_TYPE_GLOBAL, Family: &api.Family{Afi: api.Family_AFI_IP, Safi: api.Family_SAFI_UNICAST}})
+				note("GetTable", err)
+				_, err = s.GetTable(ctx, &api.GetTableRequest{TableType: api.TableType_TABLE_TYPE_ADJ_IN, Family: &api.Family{Afi: api.Family_AFI_IP, Safi: api.Family_SAFI_UNICAST}, Name: target.Addr})
+				note("GetTable(adj-in)", err)
+				_, err = s.GetBgp(ctx, &api.GetBgpRequest{})
+				note("GetBgp", err)
+				note("ListVrf", s.ListVrf(ctx, &api.ListVrfRequest{}, func(*api.Vrf) {}))
+			case 3:
+				name := fmt.Sprintf("misc-ps%d", m)
+				ds := &api.DefinedSet{DefinedType: api.DefinedType_DEFINED_TYPE_PREFIX, Name: name, Prefixes: []*api.Prefix{{IpPrefix: "10.100.0.0/16", MaskLengthMin: 16, MaskLengthMax: 24}}}
+				note("AddDefinedSet", s.AddDefinedSet(ctx, &api.AddDefinedSetRequest{DefinedSet: ds}))
+				note("ListDefinedSet", s.ListDefinedSet(ctx, &api.ListDefinedSetRequest{DefinedType: api.DefinedType_DEFINED_TYPE_PREFIX}, func(*api.DefinedSet) {}))
+				stn, pn := fmt.Sprintf("misc-st%d", m), fmt.Sprintf("misc-pol%d", m)
+				st := &api.Statement{Name: stn, Conditions: &api.Conditions{PrefixSet: &api.MatchSet{Type: api.MatchSet_TYPE_ANY, Name: name}}, Actions: &api.Actions{RouteAction: api.RouteAction_ROUTE_ACTION_ACCEPT, Med: &api.MedAction{Type: api.MedAction_TYPE_REPLACE, Value: int64(10 + op.A)}}}
+				note("AddStatement", s.AddStatement(ctx, &api.AddStatementRequest{Statement: st}))
+				note("AddPolicy", s.AddPolicy(ctx, &api.AddPolicyRequest{Policy: &api.Policy{Name: pn, Statements: []*api.Statement{{Name: stn}}}, ReferExistingStatements: true}))
+				asg := &api.PolicyAssignment{Name: "global", Direction: api.PolicyDirection_POLICY_DIRECTION_IMPORT, Policies: []*api.Policy{{Name: pn}}, DefaultAction: api.RouteAction_ROUTE_ACTION_ACCEPT}
+				note("AddPolicyAssignment", s.AddPolicyAssignment(ctx, &api.AddPolicyAssignmentRequest{Assignment: asg}))
+				note("ListPolicy", s.ListPolicy(ctx, &api.ListPolicyRequest{}, func(*api.Policy) {}))
+				note("ListStatement", s.ListStatement(ctx, &api.ListStatementRequest{}, func(*api.Statement) {}))
+				note("ListPolicyAssignment", s.ListPolicyAssignment(ctx, &api.ListPolicyAssignmentRequest{Name: "global", Direction: api.PolicyDirection_POLICY_DIRECTION_IMPORT}, func(*api.PolicyAssignment) {}))
+				time.Sleep(time.Duration(op.A) * 200 * time.Microsecond)
+				note("DeletePolicyAssignment", s.DeletePolicyAssignment(ctx, &api.DeletePolicyAssignmentRequest{Assignment: asg}))
+				note("DeletePolicy", s.DeletePolicy(ctx, &api.DeletePolicyRequest{Policy: &api.Policy{Name: pn}, PreserveStatements: false, All: true}))
+				note("DeleteStatement", s.DeleteStatement(ctx, &api.DeleteStatementRequest{Statement: &api.Statement{Name: stn}, All: true}))
+				note("DeleteDefinedSet", s.DeleteDefinedSet(ctx, &api.DeleteDefinedSetRequest{DefinedSet: &api.DefinedSet{DefinedType: api.DefinedType_DEFINED_TYPE_PREFIX, Name: name}, All: true}))
+			case 4:
+				pg := fmt.Sprintf("misc-pg%d", m)
+				g := &api.PeerGroup{Conf: &api.PeerGroupConf{PeerGroupName: pg, PeerAsn: 65090}, Transport: &api.Transport{PassiveMode: true}}
+				note("AddPeerGroup", s.AddPeerGroup(ctx, &api.AddPeerGroupRequest{PeerGroup: g}))
+				note("AddDynamicNeighbor", s.AddDynamicNeighbor(ctx, &api.AddDynamicNeighborRequest{DynamicNeighbor: &api.DynamicNeighbor{Prefix: fmt.Sprintf("10.9%d.0.0/24", m), PeerGroup: pg}}))
+				note("ListPeerGroup", s.ListPeerGroup(ctx, &api.ListPeerGroupRequest{}, func(*api.PeerGroup) {}))
+				note("ListDynamicNeighbor", s.ListDynamicNeighbor(ctx, &api.ListDynamicNeighborRequest{}, func(*api.DynamicNeighbor) {}))
+				g2 := &api.PeerGroup{Conf: &api.PeerGroupConf{PeerGroupName: pg, PeerAsn: 65090, Description: fmt.Sprintf("rev %d", op.A)}, Transport: &api.Transport{PassiveMode: true}}
+				_, err := s.UpdatePeerGroup(ctx, &api.UpdatePeerGroupRequest{PeerGroup: g2})
+				note("UpdatePeerGroup", err)
+				note("DeleteDynamicNeighbor", s.DeleteDynamicNeighbor(ctx, &api.DeleteDynamicNeighborRequest{Prefix: fmt.Sprintf("10.9%d.0.0/24", m), PeerGroup: pg}))
+				note("DeletePeerGroup", s.DeletePeerGroup(ctx, &api.DeletePeerGroupRequest{Name: pg}))
+			default:
+				note("ListRpki", s.ListRpki(ctx, &api.ListRpkiRequest{}, func(*api.Rpki) {}))
+				note("ListRpkiTable", s.ListRpkiTable(ctx, &api.ListRpkiTableRequest{Family: &api.Family{Afi: api.Family_AFI_IP, Safi: api.Family_SAFI_UNICAST}}, func(*api.Roa) {}))
+				note("ListBmp", s.ListBmp(ctx, &api.ListBmpRequest{}, func(*api.ListBmpResponse_BmpStation) {}))
+				note("SetLogLevel", s.SetLogLevel(ctx, &api.SetLogLevelRequest{Level: []api.SetLogLevelRequest_Level{api.SetLogLevelRequest_LEVEL_ERROR, api.SetLogLevelRequest_LEVEL_WARN}[op.A%2]}))
 			}
 		case c20Watch:
 			if watchCancel != nil {
@@ -444,7 +499,8 @@ func runC20(t *testing.T) func(c c20Case, st *verifkit.Stats) *verifkit.Failure 
 			for _, ss := range n.sessions() {
 				ss.close()
 			}
-			n.advance(8 * time.Second)
+			// (after an administrative reset the peer stays in Idle for idle-hold-time-after-reset, 30 s by default)
+			n.advance(35 * time.Second)
 			for i := range c.Peers {
 				if _, _, err := n.establish(c.Peers[i].def(), rsOpenSpec(&c.Peers[i])); err != nil {
 					return verifkit.Failf("peer-stuck", "peer %d cannot establish a session after the concurrent phase: %v\n  %s", i, err, strings.Join(r.log, "\n  "))
